@@ -2,7 +2,7 @@
 
 For a generated program, configuration and schedule a fault-free reference run is made first.
 Then, for the chosen party p, EVERY frame boundary k (p stops while writing its (k+1)-th
-frame) is combined with byte cuts {0, 1, 11, 12, 13, mid, len-1} inside that frame and with
+frame; also inside each opening handshake it sends) is combined with byte cuts {0, 1, 11, 12, 13, mid, len-1} inside that frame and with
 both failure modes (peers see EOF / peers see silence).  All runs use the same randomness and
 schedule, so each is the reference run up to the crash.  Every output that a surviving party
 completes (reported by a done-callback on the output future) must equal the Python-int
@@ -26,6 +26,7 @@ ASSUMPTIONS = ['one crashing party per run; a crash = stop for good (no further 
 
 CASE_TIMEOUT = 1800
 MAX_BOUNDARIES = 90
+STEP_BUDGET = 3_000_000   # scheduler steps + writes spent on the crash runs of one case (about 20-40 s)
 CUTS = (0, 1, 11, 12, 13, 'mid', 'last')
 
 
@@ -58,7 +59,7 @@ def _flat(ref, path, out):
         out[tuple(path)] = ref
 
 
-def _run(case, plan):
+def _run(case, plan, max_steps=None):
     outs = []
 
     def on_output(pid, path, value):
@@ -66,6 +67,10 @@ def _run(case, plan):
 
     def hook(sim):
         sim.crash_plan = plan
+        if max_steps is not None:
+            # after a crash survivors may poll for ever (shutdown/barrier wait loops with sleep(0)): such a run has
+            # nothing more to tell once it has used many times the steps of the complete fault-free run
+            sim.MAX_STEPS = max_steps
 
     sim, res, ref = progs.run_int_case(case, receivers=case.get('receivers'), sim_hook=hook,
                                        out_mode='eager', on_output=on_output)
@@ -114,9 +119,13 @@ def run_case(case):
     # ends) is enumerated and the cell is not reported as exhaustive
     ks = list(range(nframes))
     complete = True
-    if nframes > MAX_BOUNDARIES:
-        step = nframes / MAX_BOUNDARIES
-        ks = sorted({int(i * step) for i in range(MAX_BOUNDARIES)} | {0, nframes - 1})
+    # deterministic cost proxy (not the clock): scheduler steps + writes of the reference run, per crash run
+    unit = max(1, sim0.steps + sim0.write_events)
+    cap = max(20_000, 30 * sim0.steps)
+    maxb = max(8, min(MAX_BOUNDARIES, STEP_BUDGET // (unit * 14)))
+    if nframes > maxb:
+        step = nframes / maxb
+        ks = sorted({int(i * step) for i in range(maxb)} | {0, nframes - 1})
         complete = False
         labels.append('boundaries-subsampled')
     for k in ks:
@@ -132,7 +141,7 @@ def run_case(case):
                 if length is not None and isinstance(cut, int) and cut >= length:
                     continue
                 plan = dict(party=p, after_frames=k, cut=c, eof=eof)
-                sim, res, _, outs = _run(case, plan)
+                sim, res, _, outs = _run(case, plan, cap)
                 runs += 1
                 if not plan.get('done'):
                     raise RuntimeError(f'crash plan {plan} never triggered: run is not a pure function of the case')
@@ -146,6 +155,26 @@ def run_case(case):
                                    f'completed output {bad[1]} with value {bad[2]!r}, reference {bad[3]!r}\ncase={case}',
                                    labels=labels, n=runs, n_nt=nt)
                 completed_after += sum(1 for o in outs if o[0] != p)
+    # crash inside the opening handshake (p is client towards every higher-numbered party)
+    from vlib.sim import handshake_len
+    for j in range(p + 1, m):
+        L = handshake_len(m, case['t'], case['prss'], p, j)
+        for c in sorted({0, 1, 2, L - 2, L - 1, L // 2}):
+            if not 0 <= c < L:
+                continue
+            for eof in (True, False):
+                plan = dict(party=p, hs_peer=j, cut=c, eof=eof)
+                sim, res, _, outs = _run(case, plan, cap)
+                runs += 1
+                if not plan.get('done'):
+                    raise RuntimeError(f'handshake crash plan {plan} never triggered')
+                if 0 < plan['cut_applied'] < plan['frame_len']:
+                    nt += 1
+                bad = _wrong(outs, want, p, case.get('receivers'))
+                if bad:
+                    return Outcome(False, f'party {p} crashed inside its handshake to party {j} (after {plan["cut_applied"]} of '
+                                   f'{plan["frame_len"]} bytes, eof={eof}): surviving party {bad[0]} completed output {bad[1]} '
+                                   f'with value {bad[2]!r}, reference {bad[3]!r}\ncase={case}', labels=labels, n=runs, n_nt=nt)
     labels.append(f'frames={min(nframes, 200) // 20 * 20}+')
     labels.append('survivor-outputs' if completed_after else 'no-survivor-outputs')
     return Outcome(True, labels=labels, n=max(runs, 1), n_nt=nt, exhaustive=complete)
